@@ -446,9 +446,14 @@ class TreeMapView(Mapping[TreeMapKey, LeafValueT]):
     # Uses user specified key_paths if available. Otherwise, DFS and yield all
     # key paths.
     if self.key_paths is not None:
+      # Presence is decided on the unmapped data: a KeyError / IndexError raised
+      # by map_fn for a leaf must not be taken for an absent key.
+      data_view = self
+      if self.map_fn is not None:
+        data_view = dataclasses.replace(self, map_fn=None)
       for key in self.key_paths:
         # Skips the absent keys, a present None value is still a value.
-        if self.get(key, _MISSING) is not _MISSING:
+        if data_view.get(key, _MISSING) is not _MISSING:
           yield key
       return
     yield from _dfs_iter_tree(self.data, Key())
